@@ -20,7 +20,7 @@ ROOT = os.path.dirname(os.path.dirname(os.path.abspath(__file__)))
 REPLAYS = os.environ.get("CHMPY_VERIF_REPLAYS") or os.path.join(ROOT, "replays")
 FINDINGS = os.path.join(ROOT, "findings")
 EVIDENCE = os.path.join(ROOT, "evidence", "C14.json")
-KNOWN = os.path.join(ROOT, "known_findings.json")
+KNOWN = os.environ.get("CHMPY_VERIF_KNOWN") or os.path.join(ROOT, "known_findings.json")
 CHECK = os.path.join(ROOT, "checks", "c14.py")
 RUN_TIMEOUT = 120  # seconds per simulated run before the worker is killed
 CHUNK = 20
@@ -369,7 +369,9 @@ def handle_violations(seed, batch, pool):
         seen.add(sk)
         k = known_match(m["signature"], known)
         if k is not None:
-            klines.append("KNOWN-FINDING: property=%s %s: %s" % (PROPERTY, k["id"], k["what"]))
+            line = "KNOWN-FINDING: property=%s %s: %s" % (PROPERTY, k["id"], k["what"])
+            if line not in klines:
+                klines.append(line)
             continue
         path = write_replay(seed, m)
         ok, outp = confirm_replay(path)
